@@ -1,7 +1,7 @@
 (* C05 — Lexical conventions: literals, whitespace, separators, case, empty arguments.
    Property theorems only; proofs are in Proofs/LexicalProofs.v.  Lexer rule order / regex texts and the grammar
    tables are checked / generated from the live code (Gen/Grammar.v: lexer_gen_ok, grammar_gen_ok). *)
-From HX Require Import Model.Base Model.Lexer Model.Value Model.Operators Model.Cell Model.Interp Proofs.LexicalProofs Proofs.RefsProofs Proofs.CellProofs Proofs.Whitespace.
+From HX Require Import Model.Base Model.Lexer Model.Value Model.Operators Model.Cell Model.Interp Proofs.LexicalProofs Proofs.RefsProofs Proofs.CellProofs Proofs.Whitespace Proofs.LRfull Proofs.Separators.
 Open Scope Z_scope.
 
 Theorem C05_generated_tables_understood : lexer_gen_ok = true /\ grammar_gen_ok = true /\ lexer_error_raises_name = true.
@@ -89,6 +89,20 @@ Proof. exact sep_ok_follows. Qed.
 Theorem C05_whitespace_example : spaced [Tok T_NUMBER [49]; Tok T_PLUS [43]; Tok T_NUMBER [50]] [[]; [32]; []].
 Proof. exact spaced_example. Qed.
 
+
+(* the choice of separator, independently at every call of a formula and at any depth, with any number of arguments that
+   are themselves arbitrary expressions of the reference grammar, never changes what Parser.parse returns (record and events) *)
+Theorem C05_separators_never_change_outcome : forall h e e' s s', erase e = erase e' ->
+  s <> [] -> lex s = LexOk (xtoks e) -> xwp e -> s' <> [] -> lex s' = LexOk (xtoks e') -> xwp e' ->
+  parse_formula h s = parse_formula h s'.
+Proof. exact separators_never_change_outcome. Qed.
+Theorem C05_separators_example :
+  let e := XCall SSemi [70] [XNum [49]; XCall SBack [71] [XNum [50]; XNum [51]]; XVar [120]] in
+  let e' := XCall SComma [70] [XNum [49]; XCall SComma [71] [XNum [50]; XNum [51]]; XVar [120]] in
+  erase e = erase e' /\ xwp e /\ xwp e' /\
+  lex [70;40;49;59;71;40;50;92;51;41;59;120;41] = LexOk (xtoks e) /\ lex [70;40;49;44;71;40;50;44;51;41;44;120;41] = LexOk (xtoks e').
+Proof. exact separators_example. Qed.
+
 Print Assumptions C05_integer_literal.
 Print Assumptions C05_decimal_value.
 Print Assumptions C05_string_literal.
@@ -101,3 +115,4 @@ Print Assumptions C05_array_literals.
 Print Assumptions C05_cell_case_insensitive.
 Print Assumptions C05_whitespace_anywhere.
 Print Assumptions C05_local_conditions_suffice.
+Print Assumptions C05_separators_never_change_outcome.
